@@ -327,6 +327,8 @@ class Epoch(object):
                 self._jde = args[0]._jde
                 year, month, day, hours, minutes, sec = self.get_full_date()
             elif isinstance(args[0], (int, float)):
+                if args[0] != args[0] or abs(args[0]) == float("inf"):
+                    raise ValueError("Invalid value for the JDE")
                 self._jde = args[0]
                 year, month, day, hours, minutes, sec = self.get_full_date()
             elif isinstance(args[0], (tuple, list)):
@@ -1351,6 +1353,8 @@ class Epoch(object):
             month = e - 1
         elif e == 14 or e == 15:
             month = e - 13
+        else:
+            raise ValueError("Invalid value for the JDE")
         if month > 2:
             year = c - 4716
         elif month == 1 or month == 2:
